@@ -133,6 +133,21 @@ func runC08(e *Env) error {
 				Replay: map[string]any{"kind": "expr", "src": sc.src, "spies": fmt.Sprint(im.Spies), "out": im.Out, "class": im.Class}})
 		}
 	}
+	// (d') membership in long sequences (the engine switches to a lookup table above 50 elements): same answers as in short ones
+	for _, lst := range []string{"range(1, 60)", "range(1, 50)", "range(1, 51)", "range(0, 200, 2)", "long", "longs"} {
+		for _, needle := range []string{"3", "1 + 2", "6 / 2", "'3'", "'1' ~ '2'", "n", "n + 0", "61", "-1", "'x'", "nul", "t"} {
+			for _, op := range []string{"in", "not in"} {
+				src := needle + " " + op + " " + lst
+				c := exprCase(src, map[string]any{"n": 12, "nul": nil, "t": true,
+					"long": func() []interface{} { o := make([]interface{}, 70); for i := range o { o[i] = i }; return o }(),
+					"longs": func() []interface{} { o := make([]interface{}, 70); for i := range o { o[i] = fmt.Sprint(i) }; return o }()})
+				if _, _, _, err := compareCase(e, c, "render-model-c08", "correspondence on membership in long sequences"); err != nil {
+					return err
+				}
+				r.Seen("in:"+src, true)
+			}
+		}
+	}
 	// (e) exact integer arithmetic
 	n = e.N(600, 30000)
 	for i := 0; i < n && !r.Full(); i++ {
